@@ -112,7 +112,7 @@ func InboundRecord(t *rapid.T) string {
 			case k == "jsonrpc" && rapid.IntRange(0, 3).Draw(t, "okv") != 0:
 				v = `"2.0"`
 			case k == "method" && rapid.IntRange(0, 3).Draw(t, "okm") != 0:
-				v = rapid.SampledFrom([]string{`"ret"`, `"nope"`, `"svc.ret"`, `"rpc.serverInfo"`, `"rpc.user"`, `"err"`, `"ret"`}).Draw(t, "mv")
+				v = rapid.SampledFrom([]string{`"ret"`, `"nope"`, `"svc.ret"`, `"rpc.serverInfo"`, `"rpc.user"`, `"err"`, `"ret"`, `"rpcret"`}).Draw(t, "mv")
 			case k == "id" && rapid.IntRange(0, 3).Draw(t, "oki") != 0:
 				v = rapid.SampledFrom([]string{`1`, `"a"`, `2.5`, `-7`, `null`, `1e2`, `"1"`}).Draw(t, "iv")
 			case k == "error" && rapid.IntRange(0, 2).Draw(t, "oke") != 0:
